@@ -751,6 +751,7 @@ def step(kids, c: Child, tracked, trace, sched_label=None, timeout=9.0):
     if cls == "write":
         timeout = max(timeout, 25.0)   # a writer may sit in SQLite's busy handler for the whole busy timeout (5 s)
     results = []
+    t_step = time.monotonic()
     while True:
         grant(c)
         ok = wait_for(kids, lambda: c.state in ("want", "finished", "dead"), timeout)
@@ -765,6 +766,8 @@ def step(kids, c: Child, tracked, trace, sched_label=None, timeout=9.0):
     if cls == "script":
         ev["jm"] = jm_of_results(results)
     ev["tx"] = tx_of_results(results)
+    if time.monotonic() - t_step > 2:
+        ev["secs"] = round(time.monotonic() - t_step, 1)   # diagnostics only (slowest_replays)
     if sched_label is not None and CLS_OF_LABEL.get(sched_label) != cls:
         ev["unexpected"] = sched_label
     trace.append(ev)
@@ -1095,6 +1098,7 @@ def replay_chunk(chunk):
             rng = random.Random(common.seed() * 7919 + cid)
             orders = [rng.sample(titles(), NPAGES) for _ in range(n)]
             sched = [(e["p"], e["l"]) for e in case["sched"]]
+            t_rep = time.monotonic()
             try:
                 trace, finals, store, diverged = run_controlled(scns[key], wd / "d", n, sched, orders, cursors_of(scn, n), cid,
                                                                 drv={"boot": bool(scn["boot"])} if scn.get("drv") else None)
@@ -1104,7 +1108,7 @@ def replay_chunk(chunk):
             real = [classify_worker(f, ref[key]["results"], o) for f, o in zip(finals, orders)]
             out.append({"cid": cid, "trace": trace, "real": real, "store_ok": store_ok(store, ref[key]), "diverged": diverged,
                         "orders": orders, "excs": [f and f["exc"] for f in finals], "drv_exc": finals.drv_exc,
-                        "jm_final": journal_mode_of(wd / "d" / DBNAME),
+                        "jm_final": journal_mode_of(wd / "d" / DBNAME), "secs": round(time.monotonic() - t_rep, 2),
                         "store": None if store is None else {"npages": None if store["rows"] is None else len(store["rows"]), "integrity": store["integrity"]}})
     finally:
         shutil.rmtree(wd, ignore_errors=True)
@@ -1561,6 +1565,10 @@ def _run(o, thorough, rng, gens, side, provcfg, jobs):
                     todo.append(b3.pop(0))
             todo += b3
         replays = pmap(replay_chunk, todo, nproc=8)
+        slow = sorted((rp for rp in replays if "secs" in rp), key=lambda rp: -rp["secs"])[:3]
+        o.extra["slowest_replays"] = [{"secs": rp["secs"], "scn": gens[rp["cid"]]["scn"], "workers": len(gens[rp["cid"]]["res"]), "real": rp["real"],
+                                       "slow_steps": [e for e in rp["trace"] if e.get("secs", 0) > 2][:4]} for rp in slow]
+        o.extra["replay_seconds_total"] = round(sum(rp.get("secs", 0) for rp in replays), 1)
         phase("schedule replays")
         # stress: 2..16 free-running workers
         nstress = 200 if thorough else 10
